@@ -109,7 +109,10 @@ def h2_history(draw: Any) -> Dict[str, Any]:
             steps.append({"op": "peer_loss", "how": draw(st.sampled_from(["eof", "reset"])),
                           "during": draw(st.sampled_from(["idle", "busy"]))})
             break
-    return {"proto": "h2", "T": T, "steps": steps, "sched": draw(st.integers(0, 999))}
+    return {"proto": "h2", "T": T, "steps": steps, "sched": draw(st.integers(0, 999)),
+            # how the connection became HTTP/2: TLS + ALPN, cleartext prior knowledge (the
+            # preface arrives on what starts as an HTTP/1 connection) or the h2c upgrade
+            "opening": draw(st.sampled_from(["alpn", "alpn", "prior", "h2c"]))}
 
 
 @st.composite
@@ -369,9 +372,24 @@ async def run_h1(env: Any, case: Dict[str, Any], app: Any) -> Dict[str, Any]:
 
 async def run_h2(env: Any, case: Dict[str, Any], app: Any) -> Dict[str, Any]:
     T = case["T"]
-    conn = env.connect(alpn="h2", tls=True)
+    opening = case.get("opening", "alpn")
+    conn = env.connect(alpn="h2", tls=True) if opening == "alpn" else env.connect()
     client = H2Client(conn)
-    client.start()
+    if opening == "h2c":
+        app.programs["/up"] = [["recv_all"], ["respond", 200, [["content-length", "2"]], ["ok"]]]
+        payload = client.h2.initiate_upgrade_connection()
+        conn.send(b"GET /up HTTP/1.1\r\nHost: x\r\nConnection: Upgrade, HTTP2-Settings\r\n"
+                  b"Upgrade: h2c\r\nHTTP2-Settings: " + payload + b"\r\n\r\n")
+        await env.settle0()
+        rx = conn.received()
+        end = rx.find(b"\r\n\r\n")
+        if not rx.startswith(b"HTTP/1.1 101") or end < 0:
+            raise Violation("h2c_upgrade_failed", repr(rx[:100]), backend=env.backend)
+        client.pos = end + 4
+        client.flush()
+        client._st(1)
+    else:
+        client.start()
     await env.settle0()
     client.pump()
     await env.settle0()
